@@ -307,7 +307,7 @@ def mpc_pow_int(z, n, prec, rnd=round_fast):
     # Upper bound for the size of the exact power (up to twice too large,
     # since the modulus can be smaller than the larger component suggests)
     exact_size = n*(abs_de + max(abc, bbc))
-    if exact_size < 20000:
+    if exact_size < 24000:
         if de > 0:
             aman <<= de
             aexp = bexp
